@@ -1,7 +1,7 @@
 """C15 — history independence."""
 import numpy as np
 
-from .. import env, core, gen, files, synth, readops, readcheck, symcodec
+from .. import env, core, gen, files, synth, readops, readcheck, symcodec, histcorr
 from seismic_zfp.read import SgzReader  # noqa: E402
 import seismic_zfp  # noqa: E402
 
@@ -88,7 +88,43 @@ def history(rng, fi, length):
     return h[:length]
 
 
+def model_histories(ctx):
+    """K: histories over 1-3 readers vs the Lean cache state machine (Model/Cache): per call the outcome, the provenance
+    digest and the range reads actually issued (hits issue none; class-level slots are shared between readers)"""
+    rng = gen.rng_for(ctx.seed, 'c15-model')
+    model = core.Model()
+    try:
+        kinds = ('default', '2d', 'general', 'zslice', 'default', 'b0is4')
+        for hnum, fi in enumerate(files.read_files(ctx, rng, 36 if ctx.quick else 600, kinds=kinds, max_voxels=12_000)):
+            nread = 1 + hnum % 3
+            cfgs = [(bool((hnum + r) % 4 == 3), [1, 2, None][(hnum + r) % 3]) for r in range(nread)]
+            base = readcheck.in_range_ops(rng, fi, 2) + readcheck.out_of_range_ops(rng, fi, 1)[:2]
+            base = [o for o in base if histcorr.op_line(0, o) is not None]
+            hist = []
+            while len(hist) < (30 if ctx.quick else 80):
+                o = base[int(rng.integers(len(base)))]
+                rid = int(rng.integers(nread))
+                r = rng.random()
+                if r < .3:
+                    hist += [(rid, o), (rid, vary(rng, fi, o))]
+                elif r < .45:
+                    hist += [(rid, o), (rid, o)]
+                elif r < .6:
+                    hist += [(rid, o), ((rid + 1) % nread, o), (rid, o)]
+                elif r < .65:
+                    hist += [(rid, ('close',))]
+                else:
+                    hist.append((rid, o))
+            desc = {'n': fi.n, 'bs': fi.lay.bs, 'q': fi.lay.q, 'is2d': fi.is2d, 'readers': cfgs}
+            ctx.case(('modelhist', fi.n, fi.lay.bs, hnum), sample={'file': desc, 'history_head': [histcorr.op_line(r, o) for r, o in hist[:5]]} if hnum < 2 else None)
+            ctx.stats['model_history_ops'] += len(hist)
+            histcorr.run_history(ctx, model, fi, hist, cfgs, desc)
+    finally:
+        model.close()
+
+
 def run(ctx):
+    model_histories(ctx)
     rng = gen.rng_for(ctx.seed, 'c15')
     n_hist = 60 if ctx.quick else 1500
     length = 40 if ctx.quick else 200
